@@ -10,8 +10,12 @@
     what `Quantile.index` / the `successes` line of `Quantile.ciIndices` compute at `RR fl`
     (bridge lemmas `index_fl`, `roundToNat_fl`), and `prod_err`, the error radius
     `delta u ε p n = n·ε + u·n·(p + ε)` of the computed product.
-  * the plumbing of `Quantile.ciIndices` at an arbitrary `RR fl`: `ciWilson_ok_inv`,
-    `ciIndices_of_wilson`, `ciIndices_ok_inv`.
+  * the plumbing of `Quantile.ciIndices` at an arbitrary `RR fl`: `finishWilson_fl` (the clamped
+    bounds `max (fl (m − s)) 0`, `min (fl (m + s)) 1`), `ciWilson_ok_inv` (an `Ok` result of
+    `ci_wilson` is `[a, b]` with `0 ≤ a ≤ b ≤ 1`), `ciIndices_of_wilson`, `ciIndices_ok_inv`,
+    `ciIndices_ne_indexError` (no `IndexError` at any rounding function).
+  * `finishWilson_close`, `ciWilson_close`: the clamp never moves a computed bound further from
+    an exact bound that is a proportion, so closeness of the unclamped bounds gives `WilsonClose`.
 -/
 import StatsCI.Lemmas.Quantile
 
@@ -265,33 +269,112 @@ theorem finish_ok_inv (conf : Confidence (RR fl)) (m s : RR fl) (I : Interval (R
     split_ifs at h with hg <;> simp only [liftI] at h <;> cases h <;>
     exact ⟨_, _, rfl, by simpa using hg⟩
 
-/-- `ci_wilson` only ever succeeds with an ordered two-sided interval -/
+/-- `Proportion.finishWilson` at `RR fl`, all branches: the bounds are the clamped numbers
+    `max (fl (m − s)) 0` and `min (fl (m + s)) 1` (and the far ends `1`, `0`); `Interval::new`
+    rejects them exactly when they are inverted -/
+theorem finishWilson_fl (conf : Confidence (RR fl)) (m s : RR fl) :
+    Proportion.finishWilson conf m s =
+      match (generalizing := false) conf with
+      | .twoSided _ =>
+          if min (fl (m.val + s.val)) 1 < max (fl (m.val - s.val)) 0 then
+            .err (.interval .invalidBounds)
+          else .ok (.twoSided (inj (max (fl (m.val - s.val)) 0)) (inj (min (fl (m.val + s.val)) 1)))
+      | .upper _ =>
+          if 1 < max (fl (m.val - s.val)) 0 then .err (.interval .invalidBounds)
+          else .ok (.twoSided (inj (max (fl (m.val - s.val)) 0)) (inj 1))
+      | .lower _ =>
+          if min (fl (m.val + s.val)) 1 < 0 then .err (.interval .invalidBounds)
+          else .ok (.twoSided (inj 0) (inj (min (fl (m.val + s.val)) 1))) := by
+  have e1 : fmax (sub m s) (zero : RR fl) = inj (max (fl (m.val - s.val)) 0) := by
+    apply RR.ext'; rw [fmax_val]; rfl
+  have e2 : fmin (add m s) (one : RR fl) = inj (min (fl (m.val + s.val)) 1) := by
+    apply RR.ext'; rw [fmin_val]; rfl
+  cases conf with
+  | twoSided l =>
+    simp only [Proportion.finishWilson, e1, e2, Interval.new, RR.gt_iff, inj_val]
+    split_ifs <;> rfl
+  | upper l =>
+    simp only [Proportion.finishWilson, e1, Interval.new, RR.gt_iff, inj_val, RR.one_val]
+    split_ifs <;> rfl
+  | lower l =>
+    simp only [Proportion.finishWilson, e2, Interval.new, RR.gt_iff, inj_val, RR.zero_val]
+    split_ifs <;> rfl
+
+/-- `Proportion.finishWilson` only ever succeeds with an ordered two-sided interval of
+    proportions: both bounds lie in `[0, 1]`, whatever the rounding function does -/
+theorem finishWilson_ok_inv (conf : Confidence (RR fl)) (m s : RR fl) (I : Interval (RR fl))
+    (h : Proportion.finishWilson conf m s = .ok I) :
+    ∃ a b, I = .twoSided a b ∧ 0 ≤ a.val ∧ a.val ≤ b.val ∧ b.val ≤ 1 := by
+  rw [finishWilson_fl] at h
+  cases conf with
+  | twoSided l =>
+    simp only at h
+    split_ifs at h with hg
+    cases h
+    exact ⟨_, _, rfl, le_max_right _ _, not_lt.mp hg, min_le_right _ _⟩
+  | upper l =>
+    simp only at h
+    split_ifs at h with hg
+    cases h
+    exact ⟨_, _, rfl, le_max_right _ _, not_lt.mp hg, le_refl _⟩
+  | lower l =>
+    simp only at h
+    split_ifs at h with hg
+    cases h
+    exact ⟨_, _, rfl, le_refl _, not_lt.mp hg, min_le_right _ _⟩
+
+/-- the only documented error `Proportion.finishWilson` can return is `InvalidBounds` -/
+theorem finishWilson_err_inv (conf : Confidence (RR fl)) (m s : RR fl) (e : Err (RR fl))
+    (h : Proportion.finishWilson conf m s = .err e) : e = .interval .invalidBounds := by
+  rw [finishWilson_fl] at h
+  cases conf <;> simp only at h <;> split_ifs at h <;> cases h <;> rfl
+
+/-- `ci_wilson` only ever succeeds with an ordered two-sided interval whose bounds are
+    proportions (`0 ≤ a ≤ b ≤ 1`): the clamp of `ci_wilson` holds at every rounding function -/
 theorem ciWilson_ok_inv (crit : Crit (RR fl)) (conf : Confidence (RR fl)) (n k : ℕ)
     (I : Interval (RR fl)) (h : Proportion.ciWilson crit conf n k = .ok I) :
-    ∃ a b, I = .twoSided a b ∧ a.val ≤ b.val := by
+    ∃ a b, I = .twoSided a b ∧ 0 ≤ a.val ∧ a.val ≤ b.val ∧ b.val ≤ 1 := by
   simp only [Proportion.ciWilson] at h
   split_ifs at h
   cases hz : zValue crit conf with
-  | ok z => rw [hz, Outcome.bind_ok] at h; exact finish_ok_inv _ _ _ _ h
+  | ok z => rw [hz, Outcome.bind_ok] at h; exact finishWilson_ok_inv _ _ _ _ h
   | err e => rw [hz] at h; cases h
   | panic t => rw [hz] at h; cases h
 
+/-- `ci_wilson` never returns an `IndexError` -/
+theorem ciWilson_ne_indexError (crit : Crit (RR fl)) (conf : Confidence (RR fl)) (n k : ℕ)
+    (x : RR fl) (m : ℕ) : Proportion.ciWilson crit conf n k ≠ .err (.indexError x m) := by
+  intro h
+  simp only [Proportion.ciWilson] at h
+  split_ifs at h
+  · cases h
+  · cases h
+  · cases h
+  · cases hz : zValue crit conf with
+    | ok z =>
+      rw [hz, Outcome.bind_ok] at h
+      have := finishWilson_err_inv _ _ _ _ h
+      cases this
+    | err e =>
+      simp only [zValue] at hz
+      split_ifs at hz
+    | panic t => rw [hz] at h; cases h
+
 variable (crit : Crit (RR fl)) (conf : Confidence (RR fl)) (n : ℕ) (q : RR fl)
 
-/-- the outcome of `ci_indices` at `RR fl` once `ci_wilson` has produced `[a, b]`: an
-    `IndexError` when a computed bound has left `[0, 1]`, else the ranks of `a` and `b` -/
+/-- the outcome of `ci_indices` at `RR fl` once `ci_wilson` has produced `[a, b]`: the ranks of
+    `a` and `b` in the shape of the confidence. (`ci_wilson` clamps its bounds into `[0, 1]`, so the
+    two `IndexError` tests of `ci_indices` and the range test of `Stats::index` always pass.) -/
 theorem ciIndices_of_wilson (hq : 0 < q.val ∧ q.val < 1) (hn4 : 4 ≤ n) (a b : RR fl)
     (hW : Proportion.ciWilson crit conf n (succFl fl q.val n) = .ok (.twoSided a b)) :
     Quantile.ciIndices crit conf n q =
-      if a.val < 0 then .err (.indexError a n)
-      else if 1 < b.val then .err (.indexError b n)
-      else match (generalizing := false) conf with
+      match (generalizing := false) conf with
         | .twoSided _ =>
             if rankFl fl n b.val < rankFl fl n a.val then .err (.interval .invalidBounds)
             else .ok (.twoSided (rankFl fl n a.val) (rankFl fl n b.val))
         | .upper _ => .ok (.upper (rankFl fl n a.val))
         | .lower _ => .ok (.lower (rankFl fl n b.val)) := by
-  obtain ⟨a', b', hab, hle⟩ := ciWilson_ok_inv crit conf n _ _ hW
+  obtain ⟨a', b', hab, ha0, hle, hb1⟩ := ciWilson_ok_inv crit conf n _ _ hW
   cases hab
   have hn0 : n ≠ 0 := by omega
   unfold Quantile.ciIndices
@@ -300,17 +383,44 @@ theorem ciIndices_of_wilson (hq : 0 < q.val ∧ q.val < 1) (hn4 : 4 ≤ n) (a b 
   have hb : (gt q (zero : RR fl) && lt q (one : RR fl)) = true := by simpa using hq
   simp only [hb, Bool.not_true, Bool.false_eq_true, if_false, if_neg (not_lt.mpr hn4), hW,
     Outcome.bind_ok, Interval.toPair, RR.lt_iff, RR.gt_iff, RR.zero_val, RR.one_val]
-  by_cases ha : a.val < 0
-  · rw [if_pos ha, if_pos ha]
-  rw [if_neg ha, if_neg ha]
-  by_cases hb1 : 1 < b.val
-  · rw [if_pos hb1, if_pos hb1]
-  rw [if_neg hb1, if_neg hb1]
-  have ha0 := not_lt.mp ha
-  have hb1' := not_lt.mp hb1
-  rw [index_fl_ok n a hn0 ha0 (le_trans hle hb1'), index_fl_ok n b hn0 (le_trans ha0 hle) hb1']
+  rw [if_neg (not_lt.mpr ha0), if_neg (not_lt.mpr hb1)]
+  rw [index_fl_ok n a hn0 ha0 (le_trans hle hb1), index_fl_ok n b hn0 (le_trans ha0 hle) hb1]
   simp only [Outcome.bind_ok]
   cases conf <;> rfl
+
+/-- `ci_indices` at `RR fl` never returns an `IndexError`, whatever the rounding function: the
+    clamp of `ci_wilson` keeps both computed bounds inside `[0, 1]` -/
+theorem ciIndices_ne_indexError (x : RR fl) (m : ℕ) :
+    Quantile.ciIndices crit conf n q ≠ .err (.indexError x m) := by
+  intro h
+  by_cases hq : 0 < q.val ∧ q.val < 1
+  swap
+  · have hb : (gt q (zero : RR fl) && lt q (one : RR fl)) = false := by
+      rw [Bool.eq_false_iff]; intro hb; exact hq (by simpa using hb)
+    simp [Quantile.ciIndices, hb] at h
+  have hb : (gt q (zero : RR fl) && lt q (one : RR fl)) = true := by simpa using hq
+  by_cases hn4 : n < 4
+  · simp [Quantile.ciIndices, hb, hn4] at h
+  have hn4' : 4 ≤ n := not_lt.mp hn4
+  cases hW : Proportion.ciWilson crit conf n (succFl fl q.val n) with
+  | err e =>
+    unfold Quantile.ciIndices at h
+    rw [roundToNat_fl] at h
+    simp only [hb, Bool.not_true, Bool.false_eq_true, if_false, if_neg hn4, hW,
+      Outcome.bind_err] at h
+    cases h
+    exact ciWilson_ne_indexError crit conf n _ x m hW
+  | panic t =>
+    unfold Quantile.ciIndices at h
+    rw [roundToNat_fl] at h
+    simp [hb, hn4, hW] at h
+  | ok J =>
+    obtain ⟨a, b, rfl, -, -, -⟩ := ciWilson_ok_inv crit conf n _ _ hW
+    rw [ciIndices_of_wilson crit conf n q hq hn4' a b hW] at h
+    cases conf with
+    | twoSided l => simp only at h; split_ifs at h; cases h
+    | upper l => simp only at h; cases h
+    | lower l => simp only at h; cases h
 
 /-- what a successful `ci_indices` at `RR fl` went through -/
 theorem ciIndices_ok_inv (I : Interval ℕ) (h : Quantile.ciIndices crit conf n q = .ok I) :
@@ -344,16 +454,9 @@ theorem ciIndices_ok_inv (I : Interval ℕ) (h : Quantile.ciIndices crit conf n 
     rw [roundToNat_fl] at h
     simp [hb, hn4, hW] at h
   | ok J =>
-    obtain ⟨a, b, rfl, hle⟩ := ciWilson_ok_inv crit conf n _ _ hW
+    obtain ⟨a, b, rfl, ha0, hle, hb1⟩ := ciWilson_ok_inv crit conf n _ _ hW
     rw [ciIndices_of_wilson crit conf n q hq hn4' a b hW] at h
-    refine ⟨a, b, rfl, ?_⟩
-    by_cases ha : a.val < 0
-    · rw [if_pos ha] at h; cases h
-    rw [if_neg ha] at h
-    by_cases hb1 : 1 < b.val
-    · rw [if_pos hb1] at h; cases h
-    rw [if_neg hb1] at h
-    refine ⟨not_lt.mp ha, hle, not_lt.mp hb1, ?_⟩
+    refine ⟨a, b, rfl, ha0, hle, hb1, ?_⟩
     cases conf with
     | twoSided l =>
       simp only at h
@@ -392,6 +495,78 @@ theorem wilsonClose_self {ε : ℝ} (hε : 0 ≤ ε) (r : Outcome (Err Rex) (Int
   rw [h1] at h2
   cases h2
   simpa using hε
+
+/-- clamping from below at `0` never moves a number further from a point `y ≥ 0` -/
+theorem abs_max_zero_sub_le {x y : ℝ} (hy : 0 ≤ y) : |max x 0 - y| ≤ |x - y| := by
+  rcases le_total x 0 with h | h
+  · rw [max_eq_right h, abs_of_nonpos (by linarith : 0 - y ≤ 0),
+      abs_of_nonpos (by linarith : x - y ≤ 0)]
+    linarith
+  · rw [max_eq_left h]
+
+/-- clamping from above at `1` never moves a number further from a point `y ≤ 1` -/
+theorem abs_min_one_sub_le {x y : ℝ} (hy : y ≤ 1) : |min x 1 - y| ≤ |x - y| := by
+  rcases le_total x 1 with h | h
+  · rw [min_eq_left h]
+  · rw [min_eq_right h, abs_of_nonneg (by linarith : 0 ≤ 1 - y),
+      abs_of_nonneg (by linarith : 0 ≤ x - y)]
+    linarith
+
+/-- **the clamp does not hurt.** If the unclamped bounds `fl (m̃ − s̃)`, `fl (m̃ + s̃)` computed at
+    `RR fl` are within `ε` of exact bounds `m − s`, `m + s` that are proportions, then so are the
+    clamped bounds `Proportion.finishWilson` reports (same kind of confidence on both sides) -/
+theorem finishWilson_close {ε : ℝ} (confF : Confidence (RR fl)) (conf : Confidence Rex)
+    (hkind : confF.kind = conf.kind) (mF sF : RR fl) (m s : Rex)
+    (hlo : 0 ≤ m.val - s.val) (hhi : m.val + s.val ≤ 1)
+    (h1 : |fl (mF.val - sF.val) - (m.val - s.val)| ≤ ε)
+    (h2 : |fl (mF.val + sF.val) - (m.val + s.val)| ≤ ε) :
+    WilsonClose ε (Proportion.finishWilson confF mF sF) (Proportion.finishWilson conf m s) := by
+  have hε : 0 ≤ ε := le_trans (abs_nonneg _) h1
+  have ea : max (m.val - s.val) 0 = m.val - s.val := max_eq_left hlo
+  have eb : min (m.val + s.val) 1 = m.val + s.val := min_eq_left hhi
+  have ca := le_trans (abs_max_zero_sub_le (x := fl (mF.val - sF.val)) hlo) h1
+  have cb := le_trans (abs_min_one_sub_le (x := fl (mF.val + sF.val)) hhi) h2
+  intro aF bF a b hF hE
+  rw [finishWilson_fl] at hF hE
+  cases confF <;> cases conf <;> simp [Confidence.kind] at hkind <;>
+    simp only at hF hE <;> split_ifs at hF hE <;> cases hF <;> cases hE <;>
+    simp only [inj_val, id, ea, eb, sub_self, abs_zero] <;>
+    first | exact ⟨ca, cb⟩ | exact ⟨ca, hε⟩ | exact ⟨hε, cb⟩
+
+/-- the same for `ci_wilson`: closeness of the unclamped Wilson bounds computed at `RR fl` to the
+    exact Wilson bounds `pLow`, `pHigh` gives `WilsonClose` (`0 < n`, `k ≤ n`; the exact bounds
+    are proportions whatever the sign of the critical value) -/
+theorem ciWilson_close {ε : ℝ} (critF : Crit (RR fl)) (confF : Confidence (RR fl))
+    (crit : Crit Rex) (conf : Confidence Rex) (hkind : confF.kind = conf.kind) (n k : ℕ)
+    (hn : 0 < n) (hkn : k ≤ n)
+    (h1 : |fl ((Proportion.wilsonCentre (Scalar.ofNat n : RR fl) (Scalar.ofNat k)
+                  (critF (.z confF.quantile))).val -
+               (Proportion.wilsonSpan (Scalar.ofNat n : RR fl) (Scalar.ofNat k)
+                  (critF (.z confF.quantile))).val) - pLow n k (zOf crit conf)| ≤ ε)
+    (h2 : |fl ((Proportion.wilsonCentre (Scalar.ofNat n : RR fl) (Scalar.ofNat k)
+                  (critF (.z confF.quantile))).val +
+               (Proportion.wilsonSpan (Scalar.ofNat n : RR fl) (Scalar.ofNat k)
+                  (critF (.z confF.quantile))).val) - pHigh n k (zOf crit conf)| ≤ ε) :
+    WilsonClose ε (Proportion.ciWilson critF confF n k) (Proportion.ciWilson crit conf n k) := by
+  intro aF bF a b hF hE
+  simp only [Proportion.ciWilson] at hF hE
+  split_ifs at hF hE
+  simp only [zValue] at hF hE
+  by_cases pF : probOk confF.quantile = true
+  swap
+  · rw [if_neg pF] at hF; cases hF
+  by_cases pE : probOk conf.quantile = true
+  swap
+  · rw [if_neg pE] at hE; cases hE
+  rw [if_pos pF, Outcome.bind_ok] at hF
+  rw [if_pos pE, Outcome.bind_ok] at hE
+  refine finishWilson_close confF conf hkind _ _ _ _ ?_ ?_ ?_ ?_ aF bF a b hF hE
+  · rw [Quantile.wilsonCentre_val, Quantile.wilsonSpan_val]
+    exact (lower_nonneg n k _ hn hkn).1
+  · rw [Quantile.wilsonCentre_val, Quantile.wilsonSpan_val]
+    exact (upper_le_one n k _ hn hkn).2
+  · rw [Quantile.wilsonCentre_val, Quantile.wilsonSpan_val]; exact h1
+  · rw [Quantile.wilsonCentre_val, Quantile.wilsonSpan_val]; exact h2
 
 /-- no rank boundary within `delta` of `p·n`: the clamped floors of `p·n ∓ delta` agree -/
 def RankStable (u ε : ℝ) (n : ℕ) (p : ℝ) : Prop :=
@@ -512,9 +687,8 @@ theorem ciWilson_fl16 :
     simp [zValue, probOk, Confidence.quantile, constCrit, inj]
     norm_num
   simp only [Proportion.ciWilson, hz, Outcome.bind_ok, centre_fl16, span_fl16]
-  norm_num [Proportion.finish, Interval.new, liftI, fl16, nudge, inj]
-  refine ⟨rfl, RR.ext' ?_⟩
-  norm_num [fl16, nudge]
+  rw [finishWilson_fl]
+  norm_num [fl16, nudge, inj]
 
 
 theorem succFl_fl16 : succFl fl16 (1 / 2) 16 = 8 := by
@@ -543,6 +717,13 @@ theorem pHigh_16_8_3 : pHigh 16 8 3 = 4 / 5 := by
   rw [e, Real.sqrt_sq (by norm_num)]
   norm_num
 
+theorem pLow_16_8_3 : pLow 16 8 3 = 1 / 5 := by
+  unfold pLow centre span
+  have e : ((8 : ℕ) : ℝ) * (((16 : ℕ) : ℝ) - ((8 : ℕ) : ℝ)) / ((16 : ℕ) : ℝ) + (3 : ℝ) ^ 2 / 4
+      = (5 / 2) ^ 2 := by norm_num
+  rw [e, Real.sqrt_sq (by norm_num)]
+  norm_num
+
 theorem rank_16 : rank 16 (4 / 5) = 12 := by
   apply rank_eq_of <;> norm_num
 
@@ -554,7 +735,6 @@ theorem ciIndices_fl16 :
       (succFl fl16 (inj (1 / 2) : RR fl16).val 16) = .ok (.twoSided (inj 0) (inj (4 / 5))) := by
     rw [inj_val, succFl_fl16]; exact ciWilson_fl16
   rw [ciIndices_of_wilson _ _ 16 _ (by constructor <;> norm_num) (by norm_num) _ _ hW]
-  rw [if_neg (by rw [inj_val]; norm_num), if_neg (by rw [inj_val]; norm_num)]
   simp only [inj_val, rankFl_fl16]
 
 theorem validLevel_lower : ValidLevel (.lower (inj (9 / 10))) := by
@@ -580,6 +760,74 @@ theorem ciIndices_ex16 :
   simp only [hz, hk, pHigh_16_8_3, rank_16]
 
 end fl16
+
+section flC
+open Proportion
+
+/-- moves the sum `0.8` up to `1.1` (relative error `3/8`); exact elsewhere -/
+noncomputable def flC : ℝ → ℝ := nudge (4 / 5) (11 / 10)
+
+theorem rounds_flC : Rounds flC (1 / 2) 16 := by
+  refine rounds_nudge 16 (by norm_num) ?_ ?_
+  · rw [abs_le]; constructor <;> norm_num
+  · intro m h
+    have h1 : ((5 * m : ℕ) : ℝ) = ((4 : ℕ) : ℝ) := by push_cast; rw [h]; norm_num
+    have h2 : 5 * m = 4 := by exact_mod_cast h1
+    omega
+
+theorem centre_flC :
+    wilsonCentre (Scalar.ofNat 16 : RR flC) (Scalar.ofNat 8) (inj 3) = inj (1 / 2) := by
+  apply RR.ext'
+  simp [wilsonCentre]
+  norm_num [flC, nudge]
+
+theorem span_flC :
+    wilsonSpan (Scalar.ofNat 16 : RR flC) (Scalar.ofNat 8) (inj 3) = inj (3 / 10) := by
+  apply RR.ext'
+  simp [wilsonSpan]
+  norm_num [flC, nudge, sqrt_25, sqrt_4]
+
+/-- the unclamped upper bound computed at `RR flC` is `1.1 > 1` -/
+theorem unclamped_flC :
+    (add (wilsonCentre (Scalar.ofNat 16 : RR flC) (Scalar.ofNat 8) (inj 3))
+      (wilsonSpan (Scalar.ofNat 16 : RR flC) (Scalar.ofNat 8) (inj 3))).val = 11 / 10 := by
+  rw [centre_flC, span_flC]
+  norm_num [flC, nudge]
+
+/-- … and `ci_wilson` reports the clamped bound `1` -/
+theorem ciWilson_flC :
+    Proportion.ciWilson (constCrit 3 : Crit (RR flC)) (.lower (inj (9 / 10))) 16 8 =
+      .ok (.twoSided (inj 0) (inj 1)) := by
+  have hz : zValue (constCrit 3 : Crit (RR flC)) (.lower (inj (9 / 10))) = .ok (inj 3) := by
+    simp [zValue, probOk, Confidence.quantile, constCrit, inj]
+    norm_num
+  simp only [Proportion.ciWilson, hz, Outcome.bind_ok, centre_flC, span_flC]
+  rw [finishWilson_fl]
+  norm_num [flC, nudge, inj]
+
+theorem succFl_flC : succFl flC (1 / 2) 16 = 8 := by
+  unfold succFl
+  rw [rounds_flC.nat 16 le_rfl]
+  have e : (1 / 2 : ℝ) * ((16 : ℕ) : ℝ) = ((8 : ℕ) : ℝ) := by norm_num
+  rw [e, rounds_flC.nat 8 (by norm_num), round_natCast]; rfl
+
+theorem rankFl_flC : rankFl flC 16 1 = 15 := by
+  unfold rankFl
+  rw [rounds_flC.nat 16 le_rfl, one_mul, rounds_flC.nat 16 le_rfl, Nat.floor_natCast]
+  rfl
+
+/-- `ci_indices` at `RR flC` succeeds with the last position (before the clamp of `ci_wilson` it
+    was `IndexError(1.1, 16)`) -/
+theorem ciIndices_flC :
+    Quantile.ciIndices (constCrit 3 : Crit (RR flC)) (.lower (inj (9 / 10))) 16 (inj (1 / 2)) =
+      .ok (.lower 15) := by
+  have hW : Proportion.ciWilson (constCrit 3 : Crit (RR flC)) (.lower (inj (9 / 10))) 16
+      (succFl flC (inj (1 / 2) : RR flC).val 16) = .ok (.twoSided (inj 0) (inj 1)) := by
+    rw [inj_val, succFl_flC]; exact ciWilson_flC
+  rw [ciIndices_of_wilson _ _ 16 _ (by constructor <;> norm_num) (by norm_num) _ _ hW]
+  simp only [inj_val, rankFl_flC]
+
+end flC
 
 end RankRound
 end StatsCI
